@@ -49,6 +49,9 @@ Frag ==
                     {"CvE3"}, {"CvE3"})                                     \* error-returning converter two structs deep
   @@ "ptr"     :> F("Fptr" :> Src("Fptr"), {}, {})                           \* pointer value copied
   @@ "npath"   :> F("Fnp" :> Via("Pn", "Pn.X"), {}, {})                      \* :map Pn.X Fnp through the pointer member Pn *EN
+  @@ "sibpfx"  :> F(("Fsp.X" :> Lit("42")) @@ ("Fsp.Y" :> Src("Fsp.Y")) @@ ("FspQ.Pub" :> Src("FspQ.Pub")) @@ ("FspQ.hid" :> Src("FspQ.hid")), {}, {})
+                                                                               \* :literal Fsp.X 42 makes Fsp member-wise; its sibling FspQ - whose name merely STARTS like it -
+                                                                               \* is an imported struct with a hidden member and stays a whole-value copy
   @@ "skipci"  :> F(None, {}, {})                                            \* :skip fskipci, then :case:off BELOW it on the same method: the last case rule decides
   @@ "skip"    :> F(None, {}, {})                                            \* :skip Fskip - the leaf keeps its value
   @@ "nomatch" :> F(None, {}, {})                                            \* no source - the leaf keeps its value
